@@ -28,6 +28,7 @@ def spaces(tier):
             dict(family='pairs', size=1, level=0, cfg='K0', t0=['empty', 'full'], mut='none'),
             dict(family='pairs', size=1, level=0, cfg='K0', t0=['empty'], mut='plant'),
             dict(size=2, level=0, cfg='K0', t0=['empty'], mut='outputs', kw=small),
+            dict(family='bulk', size=1, level=0, cfg='K0', t0=['empty'], mut='none', ns=[1, 127, 128, 129, 130, 257]),
         ]
     return [
         dict(size=1, level=l, cfg=c, t0=list(gen.T0S), mut='all') for l in (0, 1) for c in ('K0', 'K1')
@@ -35,12 +36,17 @@ def spaces(tier):
         dict(family='pairs', size=1, level=0, cfg='K0', t0=list(gen.T0S), mut='none'),
         dict(size=2, level=0, cfg='K0', t0=['empty', 'dir_d_j', 'full'], mut='rel'),
         dict(family='chain3', size=3, level=0, cfg='K0', t0=['empty'], mut='outputs'),
+        dict(family='bulk', size=1, level=0, cfg='K0', t0=['empty'], mut='none',
+             ns=[1, 2, 127, 128, 129, 130, 255, 256, 257, 384, 128 * 128 + 2]),
     ]
 
 
 def tasks(tier, seed):
     out = []
     for si, sp in enumerate(spaces(tier)):
+        if sp.get('family') == 'bulk':
+            out += [{'tier': tier, 'space': si, 'slice': [i, len(sp['ns'])]} for i in range(len(sp['ns']))]
+            continue
         n = 16 if (sp['size'] == 1 and sp.get('family') != 'pairs') else 64
         for i in range(n):
             out.append({'tier': tier, 'space': si, 'slice': [i, n]})
@@ -135,6 +141,21 @@ def work(ctx, task):
     world = World(ctx.sb, ctx.fb, sp['cfg'])
     full = mutation_alphabet()
     capped = False
+    if sp.get('family') == 'bulk':
+        from ..history import bulk2
+        N = sp['ns'][i]
+        for kind in ('foreign', 'prev'):
+            for tail in ('raise', 'ok'):
+                world.start()
+                r = bulk2(world, {'op': 'note', 'bulk2': N, 'kind': kind, 'tail': tail})
+                acc.count('histories')
+                acc.count('programs')
+                acc.count('bulk_builds')
+                if tail == 'raise':
+                    acc.count('crash_builds')
+                acc.take(world, r)
+                acc.outcome('bulk', N, kind, tail, r.real[0], len(r.after))
+        return acc.result(world, False)
     if sp.get('family') == 'pairs':
         for pi, (P, Q) in enumerate(pair_programs(sp['level'])):
             if pi % n != i:
@@ -221,5 +242,7 @@ def coverage(res, tier):
                 'the rebuild after the mutation (pairs family: crashing build of Q on the state left by P), and the '
                 'cache write of every successful build failing at open / first write / later write / close. Oracles '
                 'are before/after monitors on the real tree (no model involved) plus a depth-1 bisimulation of the '
-                'next build against the saved pre-state',
+                'next build against the saved pre-state. Bulk family: N files (foreign, or outputs of a committed '
+                'build modified since; rotating contents) all overwritten by one build that then raises / commits, N '
+                'around the 128 and 128*128 boundaries of the backup store layout',
     }
